@@ -158,4 +158,216 @@ theorem iup_le (touched : Nat → Bool) (n : Nat) (hn : 1 ≤ n) :
       have := ih p1 k1 this
       omega
 
+
+/-! ### no loop-carrying opcode grows the value stack -/
+
+theorem pop_length_le' {ped : Bool} {vs vs' : List Int} {v : Int} (h : pop ped vs = .ok (v, vs')) :
+    vs'.length ≤ vs.length := by
+  unfold pop at h
+  split at h
+  · simp at h; obtain ⟨_, h2⟩ := h; subst h2; simp
+  · split at h <;> simp at h
+    obtain ⟨_, h2⟩ := h; subst h2; simp
+
+theorem deltaLoop_len (ped : Bool) (body : Int → Nat → Except Err Unit) :
+    ∀ (n : Nat) (vs vs' : List Int) (k k' : Nat), deltaLoop ped body n vs k = .ok (vs', k') → vs'.length ≤ vs.length := by
+  intro n
+  induction n with
+  | zero => intro vs vs' k k' h; simp [deltaLoop] at h; obtain ⟨h1, _⟩ := h; subst h1; exact Nat.le_refl _
+  | succ n ih =>
+    intro vs vs' k k' h
+    unfold deltaLoop at h
+    split at h
+    · simp at h
+    · rename_i hp1
+      split at h
+      · simp at h
+      · rename_i hp2
+        split at h
+        · simp at h
+        · have := ih _ _ _ _ h
+          have := pop_length_le' hp1
+          have := pop_length_le' hp2
+          omega
+
+theorem popThen_len {ped : Bool} {vs vs' : List Int} {g' : G} {f : Int → List Int → OpR}
+    (hf : ∀ v vs1, f v vs1 = .ok (vs', g') → vs'.length ≤ vs1.length) (h : popThen ped vs f = .ok (vs', g')) :
+    vs'.length ≤ vs.length := by
+  unfold popThen at h
+  split at h
+  · simp at h
+  · rename_i v vs1 hp
+    exact Nat.le_trans (hf _ _ h) (pop_length_le' hp)
+
+theorem counted_len {ped : Bool} {vs vs' : List Int} {g g' : G} {body : Nat → Except Err Unit}
+    (h : counted ped vs g body = .ok (vs', g')) : vs'.length ≤ vs.length := by
+  unfold counted at h
+  split at h
+  · simp at h
+  · rename_i vs1 k hp
+    have := (popLoop_ok ped body _ _ _ _ _ hp).2
+    simp at h; obtain ⟨h1, _⟩ := h; subst h1; exact this
+
+/-- **the loop-carrying opcodes never grow the value stack** (they only pop; CINDEX replaces the top, MINDEX removes
+    one element) -/
+theorem semLoopOp_len (ped : Bool) (op : Nat) (vs vs' : List Int) (g g' : G)
+    (h : semLoopOp ped op vs g = some (.ok (vs', g'))) : vs'.length ≤ vs.length := by
+  unfold semLoopOp at h
+  by_cases hc0 : op = 0x17
+  · rw [if_pos hc0] at h
+    refine popThen_len ?_ (Option.some.inj h)
+    intro v vs1 hf; split at hf <;> simp at hf; obtain ⟨h1, _⟩ := hf; subst h1; exact Nat.le_refl _
+  rw [if_neg hc0] at h
+  have hsrp : ∀ w, opSrp ped w vs g = .ok (vs', g') → vs'.length ≤ vs.length := by
+    intro w hh
+    refine popThen_len ?_ hh
+    intro v vs1 hf; simp at hf; obtain ⟨h1, _⟩ := hf; subst h1; exact Nat.le_refl _
+  have hszp : ∀ w, opSzp ped w vs g = .ok (vs', g') → vs'.length ≤ vs.length := by
+    intro w hh
+    refine popThen_len ?_ hh
+    intro v vs1 hf; split at hf <;> simp at hf; obtain ⟨h1, _⟩ := hf; subst h1; exact Nat.le_refl _
+  by_cases hc1 : op = 0x10
+  · rw [if_pos hc1] at h; exact hsrp _ (Option.some.inj h)
+  rw [if_neg hc1] at h
+  by_cases hc2 : op = 0x11
+  · rw [if_pos hc2] at h; exact hsrp _ (Option.some.inj h)
+  rw [if_neg hc2] at h
+  by_cases hc3 : op = 0x12
+  · rw [if_pos hc3] at h; exact hsrp _ (Option.some.inj h)
+  rw [if_neg hc3] at h
+  by_cases hc4 : op = 0x13
+  · rw [if_pos hc4] at h; exact hszp _ (Option.some.inj h)
+  rw [if_neg hc4] at h
+  by_cases hc5 : op = 0x14
+  · rw [if_pos hc5] at h; exact hszp _ (Option.some.inj h)
+  rw [if_neg hc5] at h
+  by_cases hc6 : op = 0x15
+  · rw [if_pos hc6] at h; exact hszp _ (Option.some.inj h)
+  rw [if_neg hc6] at h
+  by_cases hc7 : op = 0x16
+  · rw [if_pos hc7] at h; exact hszp _ (Option.some.inj h)
+  rw [if_neg hc7] at h
+  by_cases hc8 : op = 0x80
+  · rw [if_pos hc8] at h; exact counted_len (Option.some.inj h)
+  rw [if_neg hc8] at h
+  by_cases hc9 : op = 0x81 ∨ op = 0x82
+  · rw [if_pos hc9] at h
+    have h := Option.some.inj h
+    unfold opFlipRange at h
+    refine popThen_len ?_ h
+    intro v vs1 hf
+    refine popThen_len ?_ hf
+    intro v2 vs2 hf2
+    simp only [] at hf2
+    repeat' split at hf2
+    all_goals first | (simp at hf2; done) | (simp at hf2; obtain ⟨h1, _⟩ := hf2; subst h1; exact Nat.le_refl _)
+  rw [if_neg hc9] at h
+  by_cases hc10 : op = 0x32 ∨ op = 0x33
+  · rw [if_pos hc10] at h
+    have h := Option.some.inj h
+    unfold opShp at h
+    split at h
+    · simp at h
+    · exact counted_len h
+  rw [if_neg hc10] at h
+  by_cases hc11 : op = 0x34 ∨ op = 0x35
+  · rw [if_pos hc11] at h
+    have h := Option.some.inj h
+    unfold opShc at h
+    refine popThen_len ?_ h
+    intro v vs1 hf
+    simp only [] at hf
+    repeat' split at hf
+    all_goals first | (simp at hf; done) | (simp at hf; obtain ⟨h1, _⟩ := hf; subst h1; exact Nat.le_refl _)
+  rw [if_neg hc11] at h
+  by_cases hc12 : op = 0x36 ∨ op = 0x37
+  · rw [if_pos hc12] at h
+    have h := Option.some.inj h
+    unfold opShz at h
+    refine popThen_len ?_ h
+    intro v vs1 hf
+    repeat' split at hf
+    all_goals first | (simp at hf; done) | (simp at hf; obtain ⟨h1, _⟩ := hf; subst h1; exact Nat.le_refl _)
+  rw [if_neg hc12] at h
+  by_cases hc13 : op = 0x38
+  · rw [if_pos hc13] at h
+    refine popThen_len ?_ (Option.some.inj h)
+    intro v vs1 hf; exact counted_len hf
+  rw [if_neg hc13] at h
+  by_cases hc14 : op = 0x39
+  · rw [if_pos hc14] at h
+    have h := Option.some.inj h
+    unfold opIp at h
+    simp only [] at h
+    split at h
+    · simp at h; obtain ⟨h1, _⟩ := h; subst h1; exact Nat.le_refl _
+    · split at h
+      · simp at h
+      · split at h
+        · simp at h
+        · split at h
+          · simp at h
+          · rename_i vs1 k hp
+            have := (popLoop_ok ped _ _ _ _ _ _ hp).2
+            simp at h; obtain ⟨h1, _⟩ := h; subst h1; exact this
+  rw [if_neg hc14] at h
+  by_cases hc15 : op = 0x3C
+  · rw [if_pos hc15] at h; exact counted_len (Option.some.inj h)
+  rw [if_neg hc15] at h
+  by_cases hc16 : op = 0x5D ∨ op = 0x71 ∨ op = 0x72 ∨ op = 0x73 ∨ op = 0x74 ∨ op = 0x75
+  · rw [if_pos hc16] at h
+    have h := Option.some.inj h
+    unfold opDelta at h
+    refine popThen_len ?_ h
+    intro v vs1 hf
+    simp only [] at hf
+    split at hf
+    · simp at hf
+    · split at hf
+      · simp at hf
+      · rename_i vs2 k hk
+        have := deltaLoop_len ped _ _ _ _ _ _ hk
+        simp at hf; obtain ⟨h1, _⟩ := hf; subst h1; exact this
+  rw [if_neg hc16] at h
+  by_cases hc17 : op = 0x25
+  · rw [if_pos hc17] at h
+    have h := Option.some.inj h
+    unfold opCindex at h
+    split at h
+    · simp at h
+    · split at h
+      · simp at h
+      · simp at h; obtain ⟨h1, _⟩ := h; subst h1; simp
+  rw [if_neg hc17] at h
+  by_cases hc18 : op = 0x26
+  · rw [if_pos hc18] at h
+    have h := Option.some.inj h
+    unfold opMindex at h
+    split at h
+    · simp at h
+    · simp only [] at h
+      split at h
+      · simp at h
+      · split at h
+        · simp at h
+        · simp at h; obtain ⟨h1, _⟩ := h; subst h1
+          simp [List.length_eraseIdx]; split <;> omega
+  rw [if_neg hc18] at h
+  by_cases hc19 : op = 0x30 ∨ op = 0x31
+  · rw [if_pos hc19] at h
+    have h := Option.some.inj h
+    simp at h; obtain ⟨h1, _⟩ := h; subst h1; exact Nat.le_refl _
+  rw [if_neg hc19] at h
+  by_cases hc20 : op = 0x00 ∨ op = 0x04
+  · rw [if_pos hc20] at h
+    have h := Option.some.inj h
+    simp at h; obtain ⟨h1, _⟩ := h; subst h1; exact Nat.le_refl _
+  rw [if_neg hc20] at h
+  by_cases hc21 : op = 0x01 ∨ op = 0x05
+  · rw [if_pos hc21] at h
+    have h := Option.some.inj h
+    simp at h; obtain ⟨h1, _⟩ := h; subst h1; exact Nat.le_refl _
+  rw [if_neg hc21] at h
+  simp at h
+
 end FontVerif.InterpLoopsLemmas
